@@ -102,7 +102,11 @@ func c05Serve(n *miniNode, data []byte) (obs c05DispObs) {
 		func() {
 			defer func() {
 				if e := recover(); e != nil {
-					// decoder panics belong to the decoder monitor; note and stop
+					// the decoder monitor owns this clause, but its inputs differ from ours
+					// (separate PRNG stream): report here as well
+					obs.Panic = fmt.Sprint(e)
+					obs.Stack = c05Frames(string(debug.Stack()))
+					obs.PanicPkt = "decode"
 					rerr = fmt.Errorf("decoder panic: %v", e)
 				}
 			}()
